@@ -53,6 +53,8 @@ META = {
             "Every generated test series is analysed repeatedly under unit changes and row permutations by all four analyzers; regression analyzers are compared at 1e-9, Nelder-Mead analyzers in parameter OR likelihood space.", "3 C18"),
     "C19": ("exploration", "runtime monitoring: exactness oracle on generated meshes (linear fields), boundary-set oracle, union-find reference model for hot spots",
             "Both gradient operators, the mapping, surface detection and hot-spot labelling are run on generated block meshes with hostile id assignments and row orders and compared with closed-form / graph oracles.", "3 C19"),
+    "C20": ("fault_enumeration", "runtime monitoring: export/import round-trip oracle on generated mesh frames and call histories + k-th-call fault injection at the h5py boundary (every create call of one add_* call failed once), file content inspected after each fault",
+            "Round trips of generated meshes (2D/3D, linear/quadratic/mixed element types, hostile ids and row orders, sets written by the exporter) and exhaustive single-fault injection inside add_geometry / add_variable: the file must hold neither the geometry nor the variable being added, keep all earlier content, and accept the retried call.", "3 C20"),
     "C03": ("exploration", "runtime monitoring: metamorphic relation monitors between executions (refinement, negation, "
             "affine map, NaN insertion, Series index types), sanitizer replays",
             "Relations between pairs of real executions, each with its own counter; ties that rounding may flip are "
